@@ -1512,6 +1512,7 @@ class _Expander:
         self.bound_in_root = {n.id for n in ast.walk(root) if isinstance(n, ast.Name) and isinstance(n.ctx, (ast.Store, ast.Del))} | set(params_of(root))
         self.inlined = []
         self.count = 0
+        self.split = 0  # parallel assignments rewritten one target per statement
         self._private = {}
 
     # -- which calls are helper calls ----------------------------------------------------------------------------------------------------------------
@@ -1742,11 +1743,49 @@ class _Expander:
             return new + [Sub().visit(s)], h
         return None
 
+    # -- parallel assignments ------------------------------------------------------------------------------------------------------------------------
+    def sequential(self, s):
+        """[statements] equal to the parallel assignment `t1, t2 = v1, v2` (merged take-and-reset: `old, self.m = self.m, {}`), one target per statement, or None when s is not
+        one. All values are evaluated before any target is bound: `t1 = v1; t2 = v2` is the same only when no later value can observe an earlier store (it reads neither the
+        name / the attribute stored, nor - after a store to an attribute or an item - calls anything) and the targets themselves evaluate nothing; otherwise the values go
+        through fresh temporaries first (`a, b = b, a`), which is exact in every case. The rules then see the shape they see for the two-statement spelling."""
+        if not (isinstance(s, ast.Assign) and len(s.targets) == 1 and isinstance(s.targets[0], (ast.Tuple, ast.List)) and isinstance(s.value, (ast.Tuple, ast.List))):
+            return None
+        ts, vs = s.targets[0].elts, s.value.elts
+        if len(ts) != len(vs) or len(ts) < 2 or any(isinstance(x, ast.Starred) for x in list(ts) + list(vs)):
+            return None
+
+        def observes(v, t):
+            if isinstance(t, ast.Name):
+                return any(isinstance(x, ast.Name) and x.id == t.id for x in ast.walk(v))
+            if isinstance(t, ast.Attribute) and not any(isinstance(x, (ast.Call, ast.Subscript)) for x in ast.walk(t)):
+                return any((isinstance(x, ast.Attribute) and x.attr == t.attr) or isinstance(x, (ast.Call, ast.Await)) for x in ast.walk(v))
+            return not (isinstance(v, ast.Constant) or (isinstance(v, (ast.List, ast.Tuple)) and not v.elts) or (isinstance(v, ast.Dict) and not v.keys))  # item store: literals only
+
+        plain = all(not any(isinstance(x, (ast.Call, ast.Await, ast.NamedExpr)) for x in ast.walk(t)) for t in ts) \
+            and not any(observes(vs[j], ts[i]) for i in range(len(ts)) for j in range(i + 1, len(vs)))
+        out = []
+        if plain:
+            for t, v in zip(ts, vs):
+                out.append(ast.copy_location(ast.Assign(targets=[t], value=v), s))
+        else:
+            tmps = [self.fresh("v__parallel") for _ in vs]
+            for nm, v in zip(tmps, vs):
+                out.append(ast.copy_location(ast.Assign(targets=[ast.copy_location(ast.Name(id=nm, ctx=ast.Store()), v)], value=v), s))
+            for nm, t in zip(tmps, ts):
+                out.append(ast.copy_location(ast.Assign(targets=[t], value=ast.copy_location(ast.Name(id=nm, ctx=ast.Load()), t)), s))
+        self.split += 1
+        return out
+
     def block(self, stmts, stack=()):
         out = []
         todo = [(s, stack) for s in stmts]
         while todo:
             s, st = todo.pop(0)
+            seq = self.sequential(s)
+            if seq is not None:
+                todo = [(x, st) for x in seq] + todo
+                continue
             r = self.one(s, st)
             if r is not None:
                 new, h = r
@@ -1773,7 +1812,7 @@ def _expand(fn, repo):
     mod = source.module_of(fn)
     ex = _Expander(fn, mod, repo)
     body = ex.block(_clone(fn.body))
-    if not ex.inlined:
+    if not ex.inlined and not ex.split:
         new = fn
     else:
         new = type(fn)(name=fn.name, args=_clone(fn.args), body=body, decorator_list=_clone(fn.decorator_list), returns=_clone(fn.returns), type_comment=None)
@@ -2607,7 +2646,7 @@ def run(chk):
             return any(t is bt.test and pol != closed_pol for t, pol in guards(node, path_sensitive=True))
 
         cinc = [n for n in walk_body(jr) if isinstance(n, (ast.AugAssign, ast.Assign)) and any(is_self_attr(t_, counter) for t_ in (n.targets if isinstance(n, ast.Assign) else [n.target]))
-                and not (isinstance(n, ast.Assign) and source.is_const(n.value, 0))]
+                and not (isinstance(n, ast.Assign) and source.is_const(source.inline_node(n.value, jdefs), 0))]  # a 0 that travels through a single-assignment local is the same reset
         btn = gjr.node_of(bt)
         ok = len(cinc) == 1 and isinstance(cinc[0], ast.AugAssign) and isinstance(cinc[0].op, ast.Add) and source.is_const(cinc[0].value, 1) \
             and gjr.dominated_by_nodes(btn, [gjr.node_of(cinc[0])]) and not guards(cinc[0], path_sensitive=True)
@@ -2615,7 +2654,7 @@ def run(chk):
         others = [n for m in dm.values() for n in walk_body(m) if isinstance(n, (ast.Assign, ast.AugAssign)) and
                   any(is_self_attr(t, counter) for t in (n.targets if isinstance(n, ast.Assign) else [n.target])) and m.name not in ("__init__",) and not any(n is x for x in cinc)]
         for o in others:
-            ok = isinstance(o, ast.Assign) and source.is_const(o.value, 0) and source.enclosing_func(o) is jr and closed(o)
+            ok = isinstance(o, ast.Assign) and source.is_const(source.inline_node(o.value, jdefs) if source.enclosing_func(o) is jr else o.value, 0) and source.enclosing_func(o) is jr and closed(o)
             chk.ob("O1.2", "arrival counter reset only when the barrier closes", ok, o, short(o, 60))
         for x in mv_calls:
             gs = guards(x, path_sensitive=True)
@@ -2814,27 +2853,80 @@ def run(chk):
                 raise AnchorMissing("evaluation of finished() in joinpoint_reached")
             ok = all(gjr.dominated_by_nodes(gjr.node_of(t), [gjr.node_of(sincs[0])]) for t in fin_tests) and source.enclosing_func(sincs[0]) is jr
             chk.ob("O1.3", "step incremented before the finished test", ok, source.enclosing_stmt(fin_tests[0]), "")
-        # resets before any message
-        resets = [n for n in walk_body(jr) if isinstance(n, ast.Assign) and any(is_self_attr(t, counter) or is_self_attr(t, stepmap) for t in n.targets) and closed(n)]
+        # resets before any message. A reset is an assignment of the attribute, on the barrier-closed path, whose VALUE - read through single-assignment locals and evaluated
+        # in the state the barrier closes in (three arrivals counted and stored) - is 0 / an empty map, however the statement is spelt (`old, self.m = self.m, {}` has been
+        # rewritten one target per statement by the expansion). Both attributes must be reset, each on every path to every sending call.
+        jloc = local_defs(jr)
+        closing = {"self": _me.Record(**{counter: 3, stepmap: {0: (1.0, 2.0), 1: (1.0, 2.0), 2: (1.0, 2.0)}})}
+
+        def _fresh_empty(e):
+            """True: e evaluates to 0 / an empty container in the closing state; False: to something else; None: not evaluable"""
+            e = source.inline_node(e, jloc, no_calls=True)
+            if isinstance(e, ast.Call) and dotted(e.func) in ("dict", "collections.OrderedDict", "OrderedDict") and not e.args and not e.keywords:
+                return True
+            try:
+                v = _me.ev(e, closing)
+            except (_me.CannotEval, TypeError):
+                return None
+            return (v == 0 and not isinstance(v, bool)) if isinstance(v, (int, float)) else (len(v) == 0 if isinstance(v, (dict, list, tuple, set)) else False)
+
         msg_calls = [c for c in source.calls_in(jr) if last_attr(c.func) in ("move_to_next_task", "on_benchmark_complete", "on_task_finished", "drive_at", "send")]
-        ok = len(resets) >= 2 and all(gjr.dominated_by_nodes(gjr.node_of(c), [gjr.node_of(r)]) for c in msg_calls for r in resets)
-        # another way of emptying them (map.clear(), counter -= n, del ...) is a shape this rule does not judge
-        other_ = [n for n in walk_body(jr) if closed(n) and ((isinstance(n, ast.AugAssign) and is_self_attr(n.target, counter)) or (isinstance(n, ast.Delete) and any(is_self_attr(x, stepmap) for x in ast.walk(n)))
-                  or (isinstance(n, ast.Call) and isinstance(n.func, ast.Attribute) and n.func.attr in ("clear", "pop", "popitem") and is_self_attr(n.func.value, stepmap)))
-                  and not any(n is x for x in cinc)]
-        if len(resets) < 2 and other_:
-            chk.unknown("O1.3", f"arrival counter / per-step map are emptied by `{short(other_[0], 50)}` instead of a fresh assignment (reset shape not recognised)", other_[0])
+        resets, n_resets, unrec = {}, 0, []
+        for attr_, what_ in ((counter, "arrival counter"), (stepmap, "per-step map")):
+            writes_ = [n for n in walk_body(jr) if isinstance(n, ast.Assign) and any(is_self_attr(t, attr_) for t in n.targets) and closed(n)]
+            verdicts = [(n, _fresh_empty(n.value)) for n in writes_]
+            resets[attr_] = [n for n, v_ in verdicts if v_ is True]
+            n_resets += len(resets[attr_])
+            if not resets[attr_]:
+                # another way of emptying it (map.clear(), counter -= n, del ..., an unpacking assignment, a value that cannot be evaluated) is a shape this rule does not judge
+                unrec += [n for n, v_ in verdicts if v_ is None]
+                unrec += [n for n in walk_body(jr) if closed(n) and not any(n is x for x in cinc) and (
+                    (isinstance(n, ast.AugAssign) and is_self_attr(n.target, attr_))
+                    or (isinstance(n, ast.Delete) and any(is_self_attr(x, attr_) for x in ast.walk(n)))
+                    or (isinstance(n, ast.Assign) and not any(is_self_attr(t, attr_) for t in n.targets) and any(is_self_attr(x, attr_) and isinstance(x.ctx, ast.Store) for t in n.targets for x in ast.walk(t)))
+                    or (isinstance(n, ast.Call) and isinstance(n.func, ast.Attribute) and n.func.attr in ("clear", "pop", "popitem") and is_self_attr(n.func.value, attr_))
+                    or (isinstance(n, ast.Call) and dotted(n.func) == "setattr" and len(n.args) == 3 and source.is_const(n.args[1], attr_)))]
+        first_reset = next((r_[0] for r_ in resets.values() if r_), None)
+        if unrec:
+            chk.unknown("O1.3", f"arrival counter / per-step map are emptied by `{short(unrec[0], 50)}` instead of a fresh assignment (reset shape not recognised)", unrec[0])
         else:
-            chk.ob("O1.3", "arrival counter and per-step map reset before any message is sent", ok, resets[0] if resets else jr, f"{len(resets)} reset(s), {len(msg_calls)} sending call(s)")
-        # the local copy handed to move_to_next_task is taken before the reset
+            missing = [what_ for attr_, what_ in ((counter, "arrival counter"), (stepmap, "per-step map")) if not resets[attr_]]
+            late = [(what_, c) for attr_, what_ in ((counter, "arrival counter"), (stepmap, "per-step map")) if resets[attr_] for c in msg_calls
+                    if not gjr.dominated_by_nodes(gjr.node_of(c), [gjr.node_of(r) for r in resets[attr_]])]
+            ok = not missing and not late
+            chk.ob("O1.3", "arrival counter and per-step map reset before any message is sent", ok, first_reset if first_reset is not None else jr,
+                   f"{n_resets} reset(s), {len(msg_calls)} sending call(s)" + (f"; no assignment of 0 / an empty map to the {' and the '.join(missing)} when the barrier closes" if missing else "")
+                   + (f"; `{short(late[0][1], 40)}` can run before the {late[0][0]} is reset" if late else ""))
+        # what is handed to move_to_next_task is the map of the step that has just closed: the argument - traced through single-assignment locals and shallow copies to the read
+        # of the map attribute - is read at a statement no reset of the attribute can run before
+        jstmt = {n.targets[0].id: n for n in walk_body(jr) if isinstance(n, ast.Assign) and len(n.targets) == 1 and isinstance(n.targets[0], ast.Name) and n.targets[0].id in jloc}
+        map_writes = [n for n in walk_body(jr) if isinstance(n, ast.Assign) and any(is_self_attr(t, stepmap) for t in n.targets)]
         for x in mv_calls:
             mvp = [p_ for p_ in params_of(mv) if p_ != "self"]
             a = source.bind_args(x, mv).get(mvp[0]) if mvp else None  # positional or by keyword
             if a is None:
                 chk.unknown("O1.3", "what move_to_next_task is called with cannot be matched to its parameter (shape not recognised)", x)
                 continue
-            ok = isinstance(a, ast.Name) and a.id in local_defs(jr) and is_self_attr(source.inline_node(a, local_defs(jr), no_calls=True), stepmap)
-            chk.ob("O1.3", "the closed step's arrival map is handed to move_to_next_task", bool(ok), x, short(x, 60))
+            e, read_at = a, source.enclosing_stmt(x)
+            for _ in range(12):
+                if isinstance(e, ast.Name) and e.id in jstmt:
+                    read_at, e = jstmt[e.id], jstmt[e.id].value
+                elif isinstance(e, ast.Call) and not e.keywords and len(e.args) == 1 and dotted(e.func) in ("dict", "copy.copy", "copy.deepcopy", "copy", "deepcopy"):
+                    e = e.args[0]
+                elif isinstance(e, ast.Call) and not e.keywords and not e.args and isinstance(e.func, ast.Attribute) and e.func.attr == "copy":
+                    e = e.func.value
+                elif isinstance(e, ast.Dict) and e.keys == [None] and len(e.values) == 1:
+                    e = e.values[0]
+                else:
+                    break
+            if is_self_attr(e, stepmap):
+                early = [r for r in map_writes if r is not read_at and gjr.path_exists(gjr.node_of(r), gjr.node_of(read_at))]
+                chk.ob("O1.3", "the closed step's arrival map is handed to move_to_next_task", not early, x,
+                       short(x, 60) + f": self.{stepmap} read at line {read_at.lineno}" + (f" after `{short(early[0], 50)}` (line {early[0].lineno}): not the arrivals of the closed step" if early else ""))
+            elif _fresh_empty(e) is True or isinstance(e, ast.Constant):
+                chk.ob("O1.3", "the closed step's arrival map is handed to move_to_next_task", False, x, short(x, 60) + f": `{short(e, 40)}` is not the map the arrivals were stored in (self.{stepmap})")
+            else:
+                chk.unknown("O1.3", f"move_to_next_task is called with `{short(a, 40)}`, which cannot be traced to a read of the per-step map self.{stepmap} (shape not recognised)", x)
 
     # ---- O1.4 completed-by broadcast at most once per step ----------------------------------------------------------------------
     chk.rule("O1.4", "every CompleteCurrentTask broadcast (wherever it was extracted to) is prevented by one boolean attribute that is set on the same path before the "
@@ -3662,6 +3754,7 @@ def run(chk):
 
 from sa.selftest import V  # noqa: E402
 
+_SNAP_OLD = "            workers_curr_step = self.workers_completed_current_step\n            self.workers_completed_current_step = {}\n"
 _STEPS_OLD = "        self.number_of_steps = len(allocator.join_points) - 1\n        self.tasks_per_join_point = allocator.tasks_per_joinpoint\n"
 _WL_OLD = '        worker_id = 0\n        for assignment in worker_assignments:\n            host = assignment["host"]\n            for clients in assignment["workers"]:\n                # don\'t assign workers without any clients\n                if len(clients) > 0:\n                    self.logger.debug("Allocating worker [%d] on [%s] with [%d] clients.", worker_id, host, len(clients))\n                    worker = self.driver_actor.create_client(host, self.config, worker_id)\n\n                    client_allocations = ClientAllocations()\n                    worker_client_contexts = {}\n                    for client_id in clients:\n                        client_allocations.add(client_id, self.allocations[client_id])\n                        self.clients_per_worker[client_id] = worker_id\n                        client_context = ClientContext(client_id=client_id, parent_worker_id=worker_id)\n\n                        if create_api_keys:\n                            resp = self.create_api_key(self.default_sync_es_client, client_id)\n                            client_context.api_key = ApiKey(id=resp["id"], secret=resp["api_key"])\n\n                        worker_client_contexts[client_id] = client_context\n                        self.client_contexts[worker_id] = worker_client_contexts\n                    self.driver_actor.start_worker(\n                        worker, worker_id, self.config, self.track, client_allocations, client_contexts=worker_client_contexts\n                    )\n                    self.workers.append(worker)\n                    worker_id += 1\n\n'
 _WL_NESTED = '        def start_one(host, worker_id, clients):\n            self.logger.debug("Allocating worker [%d] on [%s] with [%d] clients.", worker_id, host, len(clients))\n            worker = self.driver_actor.create_client(host, self.config, worker_id)\n\n            client_allocations = ClientAllocations()\n            worker_client_contexts = {}\n            for client_id in clients:\n                client_allocations.add(client_id, self.allocations[client_id])\n                self.clients_per_worker[client_id] = worker_id\n                client_context = ClientContext(client_id=client_id, parent_worker_id=worker_id)\n\n                if create_api_keys:\n                    resp = self.create_api_key(self.default_sync_es_client, client_id)\n                    client_context.api_key = ApiKey(id=resp["id"], secret=resp["api_key"])\n\n                worker_client_contexts[client_id] = client_context\n                self.client_contexts[worker_id] = worker_client_contexts\n            self.driver_actor.start_worker(worker, worker_id, self.config, self.track, client_allocations, client_contexts=worker_client_contexts)\n            return worker\n\n        worker_id = 0\n        for assignment in worker_assignments:\n            host = assignment["host"]\n            for clients in assignment["workers"]:\n                # don\'t assign workers without any clients\n                if len(clients) > 0:\n                    self.workers.append(start_one(host, worker_id, clients))\n                    worker_id += 1\n\n'
@@ -4062,4 +4155,21 @@ VARIANTS += [
       _WL_NESTED.replace("                if len(clients) > 0:\n", "                if len(clients) > 1:\n"), None),
     V("number of steps taken from the per-step task table, one too few", "break", _D, _STEPS_OLD,
       "        self.tasks_per_join_point = allocator.tasks_per_joinpoint\n        self.number_of_steps = len(self.tasks_per_join_point) - 1\n", "O1.3"),
+    # h5: take-and-reset merged into one parallel assignment (benign C07-b13); the expansion rewrites it one target per statement, O1.3 evaluates the value assigned
+    V("h5 keep: snapshot and reset of the per-step map in one parallel assignment", "keep", _D, _SNAP_OLD,
+      "            workers_curr_step, self.workers_completed_current_step = self.workers_completed_current_step, {}\n"),
+    V("h5 keep: parallel assignment with the reset written first (the values are evaluated before any target is bound)", "keep", _D, _SNAP_OLD,
+      "            self.workers_completed_current_step, workers_curr_step = {}, self.workers_completed_current_step\n"),
+    V("h5 keep: counter and flag reset in one parallel assignment", "keep", _D, "            self.currently_completed = 0\n            self.complete_current_task_sent = False\n",
+      "            self.currently_completed, self.complete_current_task_sent = 0, False\n"),
+    V("h5 keep: a shallow copy of the per-step map is handed on, the map is reset by dict()", "keep", _D, _SNAP_OLD,
+      "            workers_curr_step = dict(self.workers_completed_current_step)\n            self.workers_completed_current_step = dict()\n"),
+    V("h5 break: parallel assignment hands on the fresh map and keeps the arrivals of the closed step", "break", _D, _SNAP_OLD,
+      "            workers_curr_step, self.workers_completed_current_step = {}, self.workers_completed_current_step\n", "O1.3"),
+    V("h5 break: parallel assignment that leaves the per-step map as it is", "break", _D, _SNAP_OLD,
+      "            workers_curr_step, self.workers_completed_current_step = self.workers_completed_current_step, self.workers_completed_current_step\n", "O1.3"),
+    V("h5 break: the snapshot is taken after the reset (the next element is driven with an empty map)", "break", _D, _SNAP_OLD,
+      "            self.workers_completed_current_step = {}\n            workers_curr_step = self.workers_completed_current_step\n", "O1.3"),
+    V("h5 break: parallel assignment resets the counter to one", "break", _D, "            self.currently_completed = 0\n            self.complete_current_task_sent = False\n",
+      "            self.currently_completed, self.complete_current_task_sent = 1, False\n", "O1."),
 ]
